@@ -93,6 +93,7 @@ class World:
         self._expr_cache = {}
         self._imports = {}
         self.astchecks = []  # (name, props, fn(world)->(ok, detail))
+        self.soft_ast = set()
         self.finalizers = []
         self.always_standin = {}  # property -> [(function, why)]: bounded scenario harnesses run on every check (parts no contract reaches)
         self.load_spec()
@@ -113,8 +114,12 @@ class World:
     def fields(self, cls, **types):
         self.field_decl.setdefault(cls, {}).update(types)
 
-    def astcheck(self, name, props, fn, note=""):
+    def astcheck(self, name, props, fn, note="", soft=False):
+        """soft: a *shape* obligation ("this function still has the form the argument was made for"): when it
+        fails nothing is decided - UNDECIDED plus the property's scenario harness - instead of a violation."""
         self.astchecks.append((name, set(props), fn, note))
+        if soft:
+            self.soft_ast.add(name)
 
     def field_types(self, cls):
         out = {}
@@ -1106,7 +1111,11 @@ class World:
                 if key not in eng.at_hits:
                     from .engine import VC
                     nm = "%s.at-reached[%s]" % (label, key[6:][:50])
-                    eng.vcs[(nm, (), 0)] = VC(nm, [], z3.BoolVal(False), "assert", None, (), "the statement %r is no longer executed on any path" % key[6:])
+                    # the statement the point assertion was attached to is gone (rewritten or removed): nothing is
+                    # decided about it - UNDECIDED, and the function's scenario harness is run; it is not a refutation
+                    vc = VC(nm, [], z3.BoolVal(False), "assert", None, (), "the statement %r is no longer executed on any path: its point assertion cannot be checked" % key[6:])
+                    vc.fixed_status = "unknown"
+                    eng.vcs[(nm, (), 0)] = vc
         return eng
 
 
